@@ -9,7 +9,7 @@ import glob, json, os
 from .common import c18env
 
 PROPERTY = "C18"
-LEAN_MODULES = ["AioProps.C18"]
+LEAN_MODULES = ["AioProps.C18", "AioProps.C18Ws"]
 THEOREMS = [
     "Aio.C18.ceilSec_bounds",
     "Aio.C18.totalDeadline_spec",
@@ -29,6 +29,11 @@ THEOREMS = [
     "Aio.C18.resume_delivers_cancel",
     "Aio.C18.others_unaffected_step",
     "Aio.C18.pool_cowaiter_wakeup_passed_on",
+    "Aio.C18.effWs_close_indep",
+    "Aio.C18.effWs_recv",
+    "Aio.C18.effWs_default_close",
+    "Aio.C18.ws_close_bound",
+    "Aio.C18.ws_close_unbounded",
 ]
 RULE = ("one scripted exchange of the real ClientSession/TCPConnector under virtual time: the stall phase is drawn from "
         "{pool wait, DNS, connect, send body, inside the response head (any byte position), inside the body (any byte "
@@ -43,6 +48,10 @@ RULE = ("one scripted exchange of the real ClientSession/TCPConnector under virt
         "inside the head, inside the body, exactly between two chunks, body complete but connection kept open, none} x "
         "exactly one timeout kind; upload stalled in drain() against a peer that never reads (writer task parked) x caller "
         "cancellation / total / sock_read at every later await; consumer pause/resume around the high-water mark. "
+        "https requests with a stall in the TCP connect or in the TLS handshake of each attempt; the owner of the shared lookup "
+        "cancelled / timed out with no follower and a co-request for the same host arriving in the same callback, 1-3 loop "
+        "iterations or milliseconds later, with a resolver that unwinds slowly when cancelled; gzip bodies streamed by a slow "
+        "consumer (oracle only); WebSocket close: every way of passing ws timeouts x silent/answering peer x caller cancel. "
         "Distinct by scenario content.")
 TRUSTED_BASE = [
     "asyncio: Task.cancel() is delivered at the next resumption and wins over an available result; call_at fires not "
@@ -62,7 +71,12 @@ ASSUMPTIONS = [
     "ClientResponse.read() (optionally after a sleep)",
     "the connector's shared, shielded DNS lookup task is connector-owned: it may outlive the request that started it "
     "(until the resolver answers or the connector closes) and is not counted as a background task of that request",
-    "WebSocket close stalls are not modelled here (ClientWebSocketResponse.close is covered by C13)",
+    "WebSocket: only the close handshake of the client (ws_connect timeout plumbing, close() against a silent / answering "
+    "peer, caller cancellation) is covered here; message exchange and the server side belong to C13",
+    "https is a stub: the TLS handshake is a stall point inside create_connection(sock=…, ssl=…); co-requests are plain http, "
+    "so https scenarios have no co-request",
+    "compressed slow-consumer scenarios are judged by the direct oracle only (decompression is not in the model); a co-request "
+    "that starts N loop iterations after the owner's cancellation is mapped to the same model instant",
 ]
 
 TMO_VALUES = [400, 1500, 2500, 4999, 5000, 5001, 7300]
@@ -694,12 +708,126 @@ def oracle(ctx, sc, out):
         bad("loop-exception", f"{out['loop_excs']} exception(s) reached the loop's exception handler")
 
 
+# ------------------------------------------------------------------------------ WebSocket close
+WS_VALUES = [400, 2500, 4999, 5000, 7300]
+
+
+def gen_ws(rng):
+    """ws_connect with every way of passing the timeouts x peer silent / answering during the closing
+    handshake x caller cancellation around the close"""
+    kind = rng.choice(["default", "obj", "obj", "obj", "float"])
+    if kind == "default":
+        arg = ["default"]
+    elif kind == "float":
+        arg = ["float", rng.choice(WS_VALUES)]
+    else:
+        arg = ["obj", rng.choice([None, None, 700, 3000]), rng.choice([None] + WS_VALUES + WS_VALUES)]
+    sc = {"ws": 1, "stall": "wsclose", "arg": arg, "recv": rng.choice([None, None, 300, 6000]),
+          "close_at": rng.choice([10, 1000, 1003, 4200])}
+    bound = {"default": 10000, "float": arg[-1], "obj": arg[-1]}[kind]
+    r = rng.random()
+    sc["peer"] = -1 if r < 0.6 else sc["close_at"] + rng.choice([1, 90, 2499, 2500, 2501, 9000, 12000])
+    sc["cancel"] = None
+    if rng.random() < 0.3:
+        sc["cancel"] = sc["close_at"] + rng.choice([1, 90, (bound or 3000), (bound or 3000) - 1, (bound or 3000) + 1, 2500])
+    return sc
+
+
+def ws_model_line(sc):
+    def o(v):
+        return "-" if v is None else str(v)
+    a = sc["arg"]
+    if a[0] == "default":
+        k = "default - -"
+    elif a[0] == "float":
+        k = f"float {a[1]} -"
+    else:
+        k = f"obj {o(a[1])} {o(a[2])}"
+    peer = None if sc.get("peer", -1) < 0 else sc["peer"]
+    return f"ws {k} {o(sc.get('recv'))} {sc['close_at']} {o(peer)} {o(sc.get('cancel'))}"
+
+
+def ws_impl_line(out):
+    if "harness" in out:
+        return "harness=" + out["harness"] + " " + out.get("harness_detail", "")
+    def o(v):
+        return "none" if v is None else str(v)
+    r = out["r"]
+    if r == "closed":
+        rr = f"closed@{out['r_at']} code={int(out['code']) if out['code'] is not None else '-'}"
+    elif r == "pending":
+        rr = "pending@-1 code=-"
+    else:
+        rr = f"{r}@{out['r_at']} code=-"
+    return f"recv={o(out['eff_recv'])} close={o(out['eff_close'])} r={rr}"
+
+
+def ws_oracle(ctx, sc, out):
+    """the property on the real code: whatever way the timeouts were passed, close() against a silent
+    peer returns by the configured ws_close; afterwards nothing is left"""
+    def bad(clause, detail):
+        ctx.violation(f"C18/ws-close/{clause}", sc, detail + " | " + ws_impl_line(out) +
+                      f" acq={out.get('acquired')} open={out.get('open_r')} live={out.get('live')} follow={out.get('follow')}")
+    if "harness" in out:
+        ctx.violation("C18/harness/" + out["harness"], sc, out.get("harness_detail", ""))
+        return
+    a = sc["arg"]
+    want_close = 10000 if a[0] == "default" else a[-1]          # documented: timeout's own ws_close / the 10 s default
+    want_recv = sc["recv"] if sc.get("recv") is not None else (a[1] if a[0] == "obj" else None)
+    if out["eff_close"] != want_close:
+        bad("bound-discarded", f"effective ws_close is {out['eff_close']} ms, configured {want_close} ms "
+            f"(timeout={a}, receive_timeout={sc.get('recv')})")
+    if out["eff_recv"] != want_recv:
+        bad("receive-bound-wrong", f"effective ws_receive is {out['eff_recv']} ms, configured {want_recv} ms")
+    tc = out["close_called"]
+    r = out["r"]
+    if want_close is not None and tc >= 0:
+        b = bound(tc, want_close)
+        end = out["r_at"] if r != "pending" else None
+        if end is None or end > b:
+            bad("bound", f"ws_close={want_close} from {tc}: close() must be over by {b}, ended {end}")
+    if r.startswith("E_OTHER"):
+        bad("error-kind/" + r, "close() raised something that is not the caller's cancellation")
+    if r != "pending":
+        if out["acquired"]:
+            bad("residue/slot-not-freed", "slot still acquired after close()")
+        if out["open_r"]:
+            bad("residue/connection-not-closed", "the WebSocket's connection is still open after close()")
+        if out["live"]:
+            bad("residue/live-task", f"tasks still alive: {out['live']}")
+        if out["follow"] != "ok":
+            bad("session-unusable", f"follow-up request: {out['follow']}")
+
+
+def check_ws(ctx):
+    n = 250 if ctx.quick else 4000
+    cases = []
+    for f in sorted(glob.glob(os.path.join(os.path.dirname(os.path.dirname(os.path.abspath(__file__))), "corpus", "C18", "*.json"))):
+        with open(f) as fh:
+            c = json.load(fh)
+            if c.get("ws"):
+                cases.append(c)
+    cases += [gen_ws(ctx.rng) for _ in range(n)]
+    outs = [c18env.run_ws_scenario(sc) for sc in cases]
+    ml = ctx.model([ws_model_line(sc) for sc in cases])
+    for i, (sc, out) in enumerate(zip(cases, outs)):
+        il = ws_impl_line(out)
+        ctx.case(sc, sample=({"scenario": sc, "impl": il} if i % 100 == 0 else None))
+        ctx.hit("stall:wsclose", "ws:" + out.get("r", "?"))
+        ws_oracle(ctx, sc, out)
+        if ml is not None:
+            ctx.compare(sc, il, ml[i])
+
+
 def check(ctx):
+    check_ws(ctx)
     n = 6000 if ctx.quick else 60000
     cases = []
     for f in sorted(glob.glob(os.path.join(os.path.dirname(os.path.dirname(os.path.abspath(__file__))), "corpus", "C18", "*.json"))):
         with open(f) as fh:
-            cases.append(json.load(fh))
+            c = json.load(fh)
+            if not c.get("ws"):
+                cases.append(c)
     cases += [gen_scenario(ctx.rng) for _ in range(n)]
     cases += [gen_pool_race(ctx.rng) for _ in range(n // 10)]
     cases += [gen_pause_resume(ctx.rng) for _ in range(n // 10)]
@@ -720,5 +848,8 @@ def check(ctx):
 
 
 def replay(ctx, case):
+    if case.get("ws"):
+        ws_oracle(ctx, case, c18env.run_ws_scenario(case))
+        return
     out = c18env.run_scenario(to_env(case))
     oracle(ctx, case, out)
